@@ -153,6 +153,10 @@ type Server struct {
 	Component   bool
 	HandshakeOK func(sc *SrvConn, digest string) string // returns reply (raw XML) or "" for close
 	WS          bool
+
+	delayed     []delayedSend
+	delaySeq    int
+	StopDelayed bool
 }
 
 func NewServer(e *Engine, domain string) *Server {
@@ -645,3 +649,49 @@ func (sc *SrvConn) Elements() []*RecvElem {
 func (sc *SrvConn) Items() []*RecvElem { return sc.Recv }
 
 func (sc *SrvConn) wsLoop() {}
+
+// ---------------------------------------------------------------------------
+// delayed sends: one harness task per server sends scheduled data in time order
+
+type delayedSend struct {
+	due  time.Time
+	sc   *SrvConn
+	raw  string
+	seq  int
+	stan bool
+}
+
+// SendAfter schedules raw to be written d of simulated time from now.
+func (sc *SrvConn) SendAfter(d time.Duration, raw string) {
+	s := sc.S
+	s.delaySeq++
+	s.delayed = append(s.delayed, delayedSend{due: time.Now().Add(d), sc: sc, raw: raw, seq: s.delaySeq})
+}
+
+// RunDelayed is the body of the timer task; start it with e.Go from the
+// driver. It ends when Stop is set and nothing is pending.
+func (s *Server) RunDelayed() {
+	for {
+		s.e.WaitUntil("srv.timer", func() bool { return len(s.delayed) > 0 || s.StopDelayed })
+		if len(s.delayed) == 0 {
+			return
+		}
+		// earliest (stable on seq)
+		k := 0
+		for i, d := range s.delayed {
+			if d.due.Before(s.delayed[k].due) || (d.due.Equal(s.delayed[k].due) && d.seq < s.delayed[k].seq) {
+				k = i
+			}
+		}
+		d := s.delayed[k]
+		if wait := time.Until(d.due); wait > 0 {
+			n := len(s.delayed)
+			s.e.WaitUntilFor("srv.timer.sleep", wait, func() bool { return len(s.delayed) != n })
+			continue
+		}
+		s.delayed = append(s.delayed[:k], s.delayed[k+1:]...)
+		if !d.sc.Dead {
+			d.sc.Send(d.raw)
+		}
+	}
+}
